@@ -1594,6 +1594,165 @@ def _append_fallthrough(stmts, none_assign):
 
 
 # ---------------------------------------------------------------------------
+# P0 renamed functions
+def function_fingerprint(fnode, blank_private=False):
+    """Digest of a function that ignores its own name, its docstring and the
+    names of its locals (parameters are part of the interface and stay).
+    blank_private: also ignore which private (leading underscore) functions /
+    attributes it mentions - several of them may have been renamed at once."""
+    import hashlib
+    f = copy.deepcopy(fnode)
+    a = f.args
+    params = {x.arg for x in a.args + a.kwonlyargs + a.posonlyargs}
+    if a.vararg:
+        params.add(a.vararg.arg)
+    if a.kwarg:
+        params.add(a.kwarg.arg)
+    own = f.name
+    f.name = '_'
+    if f.body and isinstance(f.body[0], ast.Expr) and isinstance(f.body[0].value, ast.Constant) \
+            and isinstance(f.body[0].value.value, str):
+        f.body = f.body[1:] or [ast.Pass()]
+    local = {}
+    stored = set()
+    for n in ast.walk(f):
+        if isinstance(n, ast.Name) and isinstance(n.ctx, (ast.Store, ast.Del)):
+            stored.add(n.id)
+        elif isinstance(n, ast.ExceptHandler) and n.name:
+            stored.add(n.name)
+    stored -= params
+
+    class R(ast.NodeTransformer):
+        def visit_Name(self, node):
+            if node.id in stored:
+                node.id = local.setdefault(node.id, '_v%d' % len(local))
+            elif node.id == own:
+                node.id = '_self_'
+            elif blank_private and node.id.startswith('_') and not node.id.endswith('__') \
+                    and node.id not in params:
+                node.id = '_p'
+            return node
+
+        def visit_Attribute(self, node):
+            self.generic_visit(node)
+            if node.attr == own:
+                node.attr = '_self_'
+            elif blank_private and node.attr.startswith('_') and not node.attr.endswith('__'):
+                node.attr = '_p'
+            return node
+
+        def visit_ExceptHandler(self, node):
+            if node.name in stored:
+                node.name = local.setdefault(node.name, '_v%d' % len(local))
+            self.generic_visit(node)
+            return node
+    R().visit(f)
+    f.decorator_list = []
+    return hashlib.sha1(ast.dump(f).encode('utf8')).hexdigest()[:16]
+
+
+def _signature(fnode):
+    a = fnode.args
+    return ([x.arg for x in a.posonlyargs + a.args], [x.arg for x in a.kwonlyargs],
+            bool(a.vararg), bool(a.kwarg), sorted(dotted(d) or ast.dump(d)
+                                                  for d in fnode.decorator_list))
+
+
+def restore_function_names(trees, ref):
+    """A function of the reference table that is gone while a new one with the
+    same body (or, failing that, the only new one with the same signature in
+    the same scope) has appeared was renamed: give it its reference name back,
+    at the definition and at its uses."""
+    ref_fp = ref.get('fingerprints', {})
+    if not ref_fp:
+        return []
+    ref_funcs = set(ref.get('functions', []))
+    method_classes = {}
+    for modname, tree in trees.items():
+        for s in tree.body:
+            if isinstance(s, ast.ClassDef):
+                for b in s.body:
+                    if isinstance(b, (ast.FunctionDef, ast.AsyncFunctionDef)):
+                        method_classes.setdefault(b.name, set()).add((modname, s.name))
+    applied = []
+    done = []
+    for modname, tree in trees.items():
+        scopes = [(None, tree.body)] + [(s.name, s.body) for s in tree.body
+                                        if isinstance(s, ast.ClassDef)]
+        for clsname, body in scopes:
+            prefix = '%s:%s' % (modname, (clsname + '.') if clsname else '')
+            cur = {b.name: b for b in body if isinstance(b, (ast.FunctionDef, ast.AsyncFunctionDef))}
+            missing = [k[len(prefix):] for k in ref_funcs
+                       if k.startswith(prefix) and '.' not in k[len(prefix):] and
+                       k[len(prefix):] not in cur]
+            new = [n for n in cur if prefix + n not in ref_funcs and
+                   not (n.startswith('__') and n.endswith('__'))]
+            if not missing or not new:
+                continue
+            pairs = {}
+            for n in new:
+                fp = function_fingerprint(cur[n])
+                same = [m for m in missing if ref_fp.get(prefix + m, {}).get('fp') == fp]
+                if len(same) == 1 and same[0] not in pairs.values():
+                    pairs[n] = same[0]
+            # several private functions renamed at once: compare modulo private names
+            fpa = {n: function_fingerprint(cur[n], True) for n in new if n not in pairs}
+            for n, fp in fpa.items():
+                same = [m for m in missing if m not in pairs.values() and
+                        ref_fp.get(prefix + m, {}).get('fpa') == fp]
+                twins = [x for x, y in fpa.items() if y == fp]
+                if len(same) == 1 and len(twins) == 1:
+                    pairs[n] = same[0]
+            rest_new = [n for n in new if n not in pairs]
+            rest_missing = [m for m in missing if m not in pairs.values()]
+            if len(rest_new) == 1 and len(rest_missing) == 1:
+                sig = ref_fp.get(prefix + rest_missing[0], {}).get('sig')
+                if sig is not None and list(_signature(cur[rest_new[0]])) == sig:
+                    pairs[rest_new[0]] = rest_missing[0]
+            for n, m in pairs.items():
+                cur[n].name = m
+                applied.append('%s%s -> %s' % (prefix, n, m))
+                done.append((modname, clsname, n, m))
+    # uses
+    by_name = {}
+    for modname, clsname, n, m in done:
+        by_name.setdefault((n, m), set()).add((modname, clsname))
+    for modname, clsname, n, m in done:
+        if clsname is None:
+            for mod2, tree2 in trees.items():
+                for x in ast.walk(tree2):
+                    if isinstance(x, ast.Name) and x.id == n and mod2 == modname:
+                        x.id = m
+                    elif isinstance(x, ast.ImportFrom):
+                        for al in x.names:
+                            if al.name == n and (x.module or '').split('.')[-1] == \
+                                    modname.split('.')[-1]:
+                                if al.asname is None:
+                                    al.asname = n
+                                al.name = m
+                    elif isinstance(x, ast.Attribute) and x.attr == n and \
+                            (dotted(x.value) or '').split('.')[-1] == modname.split('.')[-1]:
+                        x.attr = m
+        else:
+            # every class that defines a method of that name renamed it the same way:
+            # the attribute is renamed everywhere; otherwise only inside the class
+            everywhere = method_classes.get(n, set()) <= by_name[(n, m)]
+            for mod2, tree2 in trees.items():
+                if everywhere:
+                    scope_nodes = [tree2]
+                elif mod2 == modname:
+                    scope_nodes = [c for c in tree2.body if isinstance(c, ast.ClassDef) and
+                                   c.name == clsname]
+                else:
+                    scope_nodes = []
+                for sc in scope_nodes:
+                    for x in ast.walk(sc):
+                        if isinstance(x, ast.Attribute) and x.attr == n:
+                            x.attr = m
+    return applied
+
+
+# ---------------------------------------------------------------------------
 def normalise_trees(trees, reference=None, inline=True):
     """trees: modname -> ast.Module (rewritten in place).  Returns a report
     dict for the evidence."""
@@ -1611,6 +1770,8 @@ def normalise_trees(trees, reference=None, inline=True):
         ExprNorm().visit(tree)
         sn.module(tree)
         ast.fix_missing_locations(tree)
+    if ref is not None:
+        report['functions_renamed_back'] = restore_function_names(trees, ref)
     if ref is not None and inline:
         inl = Inliner(trees, ref.get('functions', []))
         inl.run()
